@@ -307,6 +307,70 @@ func init() {
 		},
 	})
 
+	// a client that is written to all the time is "seen": its queue and contents stay, however long the run
+	// of writes lasts (the real sweeper runs on virtual time)
+	harnesses = append(harnesses, &vs.Harness{
+		Name:    "c17b-written-to",
+		Horizon: 24 * time.Hour,
+		Body: func(x *vs.X) {
+			const T = time.Minute
+			gap := []time.Duration{T / 4, T / 2, T - time.Second, 50 * time.Millisecond}[vs.Choose("gap", 4)]
+			other := vs.Choose("other-client-in-between", 2) == 1
+			c := NewQueuePacketConn(fakeAddr("local"), T)
+			a, b := fakeAddr("a"), fakeAddr("b")
+			n := 0
+			var problem string
+			for vs.Elapsed() < 4*T && n < 2000 {
+				p, val, _ := tryCall(func() {
+					if _, err := c.WriteTo([]byte(fmt.Sprintf("p%d", n)), a); err != nil && problem == "" {
+						problem = fmt.Sprintf("WriteTo #%d at %v: %v", n, vs.Elapsed(), err)
+					}
+				})
+				if p {
+					problem = fmt.Sprintf("WriteTo #%d at %v panicked: %s", n, vs.Elapsed(), val)
+					break
+				}
+				n++
+				if other && n%3 == 0 {
+					c.WriteTo([]byte("x"), b)
+				}
+				vs.Sleep(gap)
+			}
+			if problem != "" {
+				x.Fail("queue-conn", "queue:written-to-client-discarded", "writes every %v to one client: %s", gap, problem)
+			}
+			q := c.OutgoingQueue(a)
+			got := 0
+			for {
+				pkt, ok, rcv := tryRecv(q)
+				if !rcv || !ok {
+					break
+				}
+				if string(pkt) != fmt.Sprintf("p%d", got) {
+					x.Fail("queue-conn", "queue:written-to-client-contents-lost", "writes every %v to one client: packet %d of the queue is %q", gap, got, pkt)
+					break
+				}
+				got++
+			}
+			want := n
+			if want > queueSize {
+				want = queueSize
+			}
+			if got != want && problem == "" {
+				x.Fail("queue-conn", "queue:written-to-client-contents-lost", "writes every %v to one client for %v: the queue holds %d packets, want %d (the client was seen at every write)", gap, vs.Elapsed(), got, want)
+			}
+			x.Outcome(fmt.Sprintf("gap=%v other=%v written=%d queued=%d", gap, other, n, got))
+			c.Close()
+		},
+		Check: func(x *vs.X) {
+			for _, t := range x.Threads() {
+				if t.Panic != "" {
+					x.Fail("no-panic", "panic:"+firstLine(t.Panic), "thread %s panicked: %s\n%s", t.Name, t.Panic, t.PanicAt)
+				}
+			}
+		},
+	})
+
 	// concurrent users of one QueuePacketConn
 	harnesses = append(harnesses, &vs.Harness{
 		Name:    "c17b-conc",
@@ -516,4 +580,15 @@ type concWorld struct {
 	readErrAfterClose bool
 	writeErrWhileOpen error
 	closeStarted      bool
+}
+
+// tryCall runs f and reports a panic instead of letting it unwind the harness thread.
+func tryCall(f func()) (panicked bool, val string, stack string) {
+	defer func() {
+		if r := recover(); r != nil {
+			panicked, val = true, fmt.Sprint(r)
+		}
+	}()
+	f()
+	return
 }
